@@ -5,7 +5,7 @@ ID=$1; DEMO_CMD=$2; shift 2; CHECKS="$@"
 WT=/tmp/seed/$ID; OUT=/tmp/seed/$ID-out; LOG=$OUT/verify.log
 export CARGO_NET_OFFLINE=true CARGO_TARGET_DIR=/tmp/seed/$ID-target
 cd $WT || exit 2
-git checkout -q -- . ; git clean -fdq
+git reset -q --hard HEAD; git clean -fdxq
 : > $LOG
 echo "== apply patch.diff" >> $LOG
 git apply $OUT/patch.diff >> $LOG 2>&1 || { echo "PATCH DOES NOT APPLY" | tee -a $LOG; exit 2; }
@@ -22,6 +22,6 @@ unshare -n bash -c "ip link set lo up; $DEMO_CMD" 2>&1 | grep -E "^test |test re
 echo "== demo without the patch (must pass)" >> $LOG
 git apply -R $OUT/patch.diff >> $LOG 2>&1
 unshare -n bash -c "ip link set lo up; $DEMO_CMD" 2>&1 | grep -E "^test |test result|panicked" | head -12 >> $LOG
-git checkout -q -- . ; git clean -fdq
+git reset -q --hard HEAD; git clean -fdxq
 echo "== done" >> $LOG
 cat $LOG
